@@ -6,12 +6,10 @@ oracle with the same bindings.
 namespace Rivaas.CompilerL
 open Rivaas.Route Rivaas.Radix Rivaas.Compiler Rivaas.Match Rivaas.RadixL
 
-/-- the constraint check of the compiled matcher: per parameter, the first constraint registered
-under its name -/
+/-- the constraint check of the compiled matcher: per parameter, every constraint registered under
+its name -/
 def consFirstOK (sat : Nat → Bytes → Bool) (cons : List (Bytes × Nat)) (b : List (Bytes × Bytes)) : Bool :=
-  b.all fun (n, v) => match firstCons n cons with
-    | some cid => sat cid v
-    | none => true
+  b.all fun (n, v) => (consFor false n cons).all fun cid => sat cid v
 
 /-- body patterns: literals and parameters only -/
 def noWild (pat : Pat) : Prop := pat.all litOK = true
@@ -82,13 +80,13 @@ theorem analyse_match (sat : Nat → Bytes → Bool) (cons : List (Bytes × Nat)
       | par n =>
         have han : analyse cons pre.length (segTexts (PSeg.par n :: rest)) =
             ((analyse cons (pre.length + 1) (segTexts rest)).1,
-             (pre.length, n, firstCons n cons) :: (analyse cons (pre.length + 1) (segTexts rest)).2) := by
+             (pre.length, n, consFor false n cons) :: (analyse cons (pre.length + 1) (segTexts rest)).2) := by
           simp only [segTexts, List.map_cons, renderSeg, analyse]
         rw [han] at hchk
         obtain ⟨hst, hpv⟩ := hchk
         have hget : (pre ++ x :: xs')[pre.length]? = some x := by simp
         simp only [paramsValid, hget] at hpv
-        by_cases hcx : rejects sat (firstCons n cons) x = true
+        by_cases hcx : rejects sat (consFor false n cons) x = true
         · simp [hcx] at hpv
         simp only [hcx, if_false] at hpv
         rw [hpre, ← hprelen] at hst hpv
@@ -97,11 +95,7 @@ theorem analyse_match (sat : Nat → Bytes → Bool) (cons : List (Bytes × Nat)
         · cases rest <;> simp [matchPat, hb]
         · simp only [consFirstOK, List.all_cons, Bool.and_eq_true]
           refine ⟨?_, hcb⟩
-          cases hf : firstCons n cons with
-          | none => rfl
-          | some cid =>
-            rw [hf] at hcx
-            simpa [rejects] using hcx
+          simpa [rejects] using hcx
         · intro j slots over hsl
           rw [han]
           simp only [paramsWrite, hget, Option.getD_some]
@@ -157,7 +151,7 @@ theorem segTexts_last_star (pat : Pat) (hne : pat ≠ []) (h : ∀ s ∈ pat, se
 
 /-- `CompileRoute` past the normalisation, for a trimmed text other than `/` -/
 theorem compileRoute_unfold (method text : Bytes) (cons : List (Bytes × Nat)) (rid : Nat)
-    (ht : trimSpace text = text) (h1 : text ≠ ['/']) (h2 : text ≠ []) :
+    (h1 : text ≠ ['/']) (h2 : text ≠ []) :
     compileRoute method text cons rid =
       if lastStar (splitSlash (trimSlashes text)) then
         ⟨method, text, (splitSlash (trimSlashes text)).length, [], [], false, true, rid⟩
@@ -165,11 +159,11 @@ theorem compileRoute_unfold (method text : Bytes) (cons : List (Bytes × Nat)) (
         ⟨method, text, (splitSlash (trimSlashes text)).length,
          (analyse cons 0 (splitSlash (trimSlashes text))).1, (analyse cons 0 (splitSlash (trimSlashes text))).2,
          (analyse cons 0 (splitSlash (trimSlashes text))).2.isEmpty, false, rid⟩ := by
-  unfold compileRoute
-  simp only [ht, h2, if_false, h1]
+  unfold compileRoute compileRouteGen
+  simp only [Bool.false_eq_true, if_false, h2, h1]
 
 /-- the compiled form of a parameter route without wildcard -/
-theorem compileRoute_dyn (r : Route) (hn : NormalPat r.text r.pat) (ht : trimSpace r.text = r.text)
+theorem compileRoute_dyn (r : Route) (hn : NormalPat r.text r.pat)
     (hne : r.pat ≠ []) (hw : endsWild r.pat = false) :
     compileRoute r.method r.text r.cons r.rid =
       ⟨r.method, r.text, r.pat.length, (analyse r.cons 0 (segTexts r.pat)).1, (analyse r.cons 0 (segTexts r.pat)).2,
@@ -178,10 +172,10 @@ theorem compileRoute_dyn (r : Route) (hn : NormalPat r.text r.pat) (ht : trimSpa
   rw [← hn.text] at h1 h2
   have hsegs : splitSlash (trimSlashes r.text) = segTexts r.pat := by
     rw [hn.text]; exact model_segs _ hne hn.segs
-  rw [compileRoute_unfold _ _ _ _ ht h1 h2, hsegs, segTexts_last_star r.pat hne hn.segs, hw]
+  rw [compileRoute_unfold _ _ _ _ h1 h2, hsegs, segTexts_last_star r.pat hne hn.segs, hw]
   simp [segTexts]
 
-theorem compileRoute_wild (r : Route) (hn : NormalPat r.text r.pat) (ht : trimSpace r.text = r.text)
+theorem compileRoute_wild (r : Route) (hn : NormalPat r.text r.pat)
     (hne : r.pat ≠ []) (hw : endsWild r.pat = true) :
     (compileRoute r.method r.text r.cons r.rid).isStatic = false ∧
     (compileRoute r.method r.text r.cons r.rid).hasWildcard = true := by
@@ -189,7 +183,7 @@ theorem compileRoute_wild (r : Route) (hn : NormalPat r.text r.pat) (ht : trimSp
   rw [← hn.text] at h1 h2
   have hsegs : splitSlash (trimSlashes r.text) = segTexts r.pat := by
     rw [hn.text]; exact model_segs _ hne hn.segs
-  rw [compileRoute_unfold _ _ _ _ ht h1 h2, hsegs, segTexts_last_star r.pat hne hn.segs, hw]
+  rw [compileRoute_unfold _ _ _ _ h1 h2, hsegs, segTexts_last_star r.pat hne hn.segs, hw]
   exact ⟨rfl, rfl⟩
 
 theorem compileRoute_root (r : Route) (hn : NormalPat r.text r.pat) (hpe : r.pat = []) :
@@ -198,7 +192,7 @@ theorem compileRoute_root (r : Route) (hn : NormalPat r.text r.pat) (hpe : r.pat
   rw [ht]
   rfl
 
-theorem compileRoute_meta (r : Route) (hn : NormalPat r.text r.pat) (ht : trimSpace r.text = r.text) :
+theorem compileRoute_meta (r : Route) (hn : NormalPat r.text r.pat) :
     (compileRoute r.method r.text r.cons r.rid).method = r.method ∧
     (compileRoute r.method r.text r.cons r.rid).pattern = r.text ∧
     (compileRoute r.method r.text r.cons r.rid).rid = r.rid := by
@@ -208,7 +202,7 @@ theorem compileRoute_meta (r : Route) (hn : NormalPat r.text r.pat) (ht : trimSp
     exact ⟨rfl, this.symm, rfl⟩
   · obtain ⟨h1, h2⟩ := render_ne r.pat hpe hn.segs
     rw [← hn.text] at h1 h2
-    rw [compileRoute_unfold _ _ _ _ ht h1 h2]
+    rw [compileRoute_unfold _ _ _ _ h1 h2]
     split <;> exact ⟨rfl, rfl, rfl⟩
 
 /-- the parameter list of the analysis is empty exactly for parameter-free bodies -/
@@ -288,7 +282,7 @@ theorem indexSlash_none (l : Bytes) (h : indexSlash l = none) : '/' ∉ l := by
       simp only [List.mem_cons, not_or]
       exact ⟨fun e => hc e.symm, ih h⟩
 
-theorem fastMatch_true (sat : Nat → Bytes → Bool) (s name : Bytes) (c : Option Nat) (path : Bytes) (over : SMap)
+theorem fastMatch_true (sat : Nat → Bytes → Bool) (s name : Bytes) (c : List Nat) (path : Bytes) (over : SMap)
     (e : Extract) (h : fastMatch false sat (some s) name c path over = (true, e)) :
     ∃ v, path = '/' :: (s ++ '/' :: v) ∧ '/' ∉ s ∧ '/' ∉ v ∧ v ≠ [] ∧ rejects sat c v = false ∧
       e = ⟨[(name, v)], over⟩ := by
@@ -360,7 +354,7 @@ of a parameter route of the vocabulary, the oracle's pattern match succeeds on t
 first-constraint-per-parameter check holds, and the context holds exactly the bindings (first eight
 inline, the rest in the map). -/
 theorem matchAndExtract_sound (sat : Nat → Bytes → Bool) (r : Route) (hn : NormalPat r.text r.pat)
-    (ht : trimSpace r.text = r.text) (hne : r.pat ≠ []) (hw : endsWild r.pat = false)
+    (hne : r.pat ≠ []) (hw : endsWild r.pat = false)
     (hns : isStaticPat r.pat = false)
     (path : Bytes) (hp : path.head? = some '/') (over : SMap) (e : Extract)
     (h : matchAndExtract sat (compileRoute r.method r.text r.cons r.rid) path over = (true, e)) :
@@ -371,7 +365,7 @@ theorem matchAndExtract_sound (sat : Nat → Bytes → Bool) (r : Route) (hn : N
   unfold patOK at hpok
   rw [hbody] at hpok
   have hnow : noWild r.pat := hpok
-  rw [compileRoute_dyn r hn ht hne hw] at h
+  rw [compileRoute_dyn r hn hne hw] at h
   cases path with
   | nil => simp at hp
   | cons c rest =>
@@ -443,7 +437,7 @@ theorem matchAndExtract_sound (sat : Nat → Bytes → Bool) (r : Route) (hn : N
           rw [this] at hl1; simp at hl1
         | par n =>
           have han : analyse r.cons 0 (segTexts [PSeg.lit s, PSeg.par n]) =
-              ([(0, s)], [(1, n, firstCons n r.cons)]) := by
+              ([(0, s)], [(1, n, consFor false n r.cons)]) := by
             simp only [segTexts, List.map_cons, List.map_nil, renderSeg, hslit]
             simp [analyse]
           rw [han] at h
@@ -467,9 +461,7 @@ theorem matchAndExtract_sound (sat : Nat → Bytes → Bool) (r : Route) (hn : N
           rw [hcut, hpat]
           refine ⟨[(n, v)], by simp [matchPat], ?_, ?_⟩
           · simp only [consFirstOK, List.all_cons, List.all_nil, Bool.and_true]
-            cases hf : firstCons n r.cons with
-            | none => rfl
-            | some cid => rw [hf] at hrej; simpa [rejects] using hrej
+            simpa [rejects] using hrej
           · rw [he]
             simp [pushAll, Ctx.push]
     · -- the general path
